@@ -190,8 +190,14 @@ def run(tier, seed, build):
         ents = gen_fixed(rng, den) if den else [["sequence", "x", "ACGT"]]
         # anonymous names depend on the process-global counter: do not fix them by name
         ents = [e for e in ents if "_Anon" not in e[1]]
-        c["fixed_entries"] = ents
-        c["files"] = dict(c["files"]); c["files"]["fix.fixed"] = fixed_text(rng, ents)
+        extra = []
+        if den and cases.index(c) % 9 == 4:      # every ninth file also fixes a sequence to a string of N's one position too long or too short
+            r2 = random.Random(seed * 131 + cases.index(c))      # (a generator of its own: the other cases stay as they were)
+            cands = [nm for nm, nts in den["named"].items() if "_Anon" not in nm and len(nts) >= 2]
+            if cands:
+                nm = r2.choice(sorted(cands)); extra = [["sequence", nm, "N" * (len(den["named"][nm]) + r2.choice([-1, 1]))]]
+        c["fixed_entries"] = ents + extra
+        c["files"] = dict(c["files"]); c["files"]["fix.fixed"] = fixed_text(rng, ents) + "".join("%s %s = %s\n" % tuple(e) for e in extra)
         c["fixed"] = "fix.fixed"
     impl = fw.run_impl("props.c02", "impl_case", [{k: v for k, v in c.items() if not k.startswith("_") and k != "fixed_entries"} for c in cases], per_case_timeout=60)
     model = fw.run_model([c02.model_req(c, r.get("ctr0", 0) if isinstance(r, dict) else 0, c["fixed_entries"]) for c, r in zip(cases, impl)])
